@@ -266,6 +266,14 @@ impl Sub for KeyBinding {
           return Verdict::Pass;
         }
         Ok(lk2) => {
+          if seed[1] % 8 == 0 && !p.is_local() && p != Proto::V1P {
+            // the wrong-key object stays alive while the right key is wrapped again and again (a service that re-wraps its key per
+            // request): whatever the wrappers register anywhere, K' stays K'
+            for _ in 0..300 {
+              let _ = km.lib();
+            }
+            cl.tag("300-wrappers-of-the-right-key-in-between");
+          }
           let (r1, r2) = parse_twice(p, s.layer, (&t, &lk, f, a), (&t, &lk2, f, a));
           match r1 {
             Ok(o) if o.message().as_deref() == Some(s.msg.as_str()) => {}
